@@ -24,6 +24,7 @@ def record(repo):
     env = dict(os.environ)
     env["PYTHONPATH"] = os.path.join(repo, "src") + os.pathsep + VERIF
     env["VERIF_SUITE_TRACE_DIR"] = out
+    env["PYTHONDONTWRITEBYTECODE"] = "1"
     env.pop("YLDPROLOG_VERIF", None)
     p = subprocess.run(["/venv/bin/python", "-m", "pytest", "-q", "-p", "no:cacheprovider", "-p", "harness.pytest_trace_plugin", "tests"],
                        cwd=repo, env=env, capture_output=True, text=True, timeout=1800)
